@@ -44,6 +44,8 @@ FORMS = [
     ("p'q", 0, 3, 0, 0, "p'q"), ("'p'q", 1, 3, 0, 0, "p'q"), ("p'q'", 0, 3, 1, 0, "p'q"), ('__p', 0, 3, 0, 0, '__p'), ("__p'", 0, 3, 1, 0, '__p'), ("'__p", 1, 3, 0, 0, '__p'),
     ('-p', 0, 1, 0, 0, '-p'), ("-'p", 1, 1, 0, 0, '-p'), ("-p'", 0, 1, 1, 0, '-p'), ('-_p', 0, 2, 0, 1, '-p'),
     ("p(1)", 0, 1, 0, 0, 'p(1'), ("'p(1)", 1, 1, 0, 0, 'p(1'), ("p'(1)", 0, 1, 1, 0, 'p(1'), ('_p(1)', 0, 2, 0, 1, 'p(1'),
+    # names with underscores inside and with TWO underscores at the end (one leading underscore is the initially marker, two underscores at either end are part of the name)
+    ('p__', 0, 3, 0, 0, 'p__'), ("p__'", 0, 3, 1, 0, 'p__'), ("'p__", 1, 3, 0, 0, 'p__'), ('p_q', 0, 3, 0, 0, 'p_q'), ('__p__', 0, 5, 0, 0, '__p__'), ('-p__', 0, 3, 0, 0, '-p__'),
 ]
 PARTS = ['always', 'final', 'initial', 'dynamic']
 
